@@ -1367,6 +1367,23 @@ theorem PrivInv.step {w w' : World} {caps : Nat → Nat} {op : WOp} (hg : GReach
         simp at h; subst h
         exact TStep.inv hp (T := 0) (A := True) (tstep_same_iovs 0 (fun _ => rfl)
           (fun s' ⟨j, y, hj, hy⟩ => Or.inl ⟨s', ⟨j, y, hj, hy⟩, Sub.refl _⟩))
+  | lend bs =>
+    simp [World.step, World.addExt] at h; subst h
+    exact TStep.inv hp (T := 0) (A := False) (tstep_same_iovs 0 (fun _ => rfl) (asl_same (fun _ => rfl)))
+  | pushAt i b off len =>
+    simp only [World.step] at h
+    split at h
+    · rcases push_cases h with h | h
+      · exact (pushCopy_tstep hg h (hwf i)).inv hp
+      · have q := pushBorrowed_qstep h ⟨_, rfl⟩ (fun v hv => hwf i v hv)
+        exact TStep.inv hp (T := i) (A := False) (q.toTStep False)
+    · simp at h
+  | pushBorrowedAt i b off len =>
+    simp only [World.step] at h
+    split at h
+    · have q := pushBorrowed_qstep h ⟨_, rfl⟩ (fun v hv => hwf i v hv)
+      exact TStep.inv hp (T := i) (A := False) (q.toTStep False)
+    · simp at h
 
 /-! ### Histories that clone only iovecs with no placeholder pending -/
 
